@@ -181,6 +181,130 @@ fn pi<T: TryFrom<i128>>(t: &str) -> T {
     T::try_from(v).ok().expect("primitive in range")
 }
 
+
+// ------------------------------------------------------------------------------------------------
+// ownership forms: `<op>@<form>` with form in vv vr rv rr (operator / method on values and
+// references) and av ar (assigning operator with an owned / borrowed right-hand side)
+// ------------------------------------------------------------------------------------------------
+macro_rules! op_forms {
+    ($form:expr, $x:expr, $y:expr, $op:tt, $opa:tt) => {{
+        let (x, y) = ($x, $y);
+        match $form {
+            "vv" => ok(x $op y),
+            "vr" => ok(x $op &y),
+            "rv" => ok(&x $op y),
+            "rr" => ok(&x $op &y),
+            "av" => { let mut v = x; v $opa y; ok(v) }
+            "ar" => { let mut v = x; v $opa &y; ok(v) }
+            _ => "unknown-op".into(),
+        }
+    }};
+}
+macro_rules! op_forms4 {
+    ($form:expr, $x:expr, $y:expr, $op:tt) => {{
+        let (x, y) = ($x, $y);
+        match $form {
+            "vv" => ok(x $op y),
+            "vr" => ok(x $op &y),
+            "rv" => ok(&x $op y),
+            "rr" => ok(&x $op &y),
+            _ => "unknown-op".into(),
+        }
+    }};
+}
+macro_rules! m_forms {
+    ($form:expr, $x:expr, $y:expr, $m:ident) => {{
+        let (x, y) = ($x, $y);
+        match $form {
+            "vv" => ok(x.$m(y)),
+            "vr" => ok(x.$m(&y)),
+            "rv" => ok((&x).$m(y)),
+            "rr" => ok((&x).$m(&y)),
+            _ => "unknown-op".into(),
+        }
+    }};
+}
+macro_rules! int_forms {
+    ($op:expr, $form:expr, $x:expr, $y:expr) => {
+        match $op {
+            "add" => op_forms!($form, $x, $y, +, +=),
+            "sub" => op_forms!($form, $x, $y, -, -=),
+            "mul" => op_forms!($form, $x, $y, *, *=),
+            "div" => op_forms!($form, $x, $y, /, /=),
+            "rem" => op_forms!($form, $x, $y, %, %=),
+            "divrem" => m_forms!($form, $x, $y, div_rem),
+            "div_euclid" => m_forms!($form, $x, $y, div_euclid),
+            "rem_euclid" => m_forms!($form, $x, $y, rem_euclid),
+            "divrem_euclid" => m_forms!($form, $x, $y, div_rem_euclid),
+            "gcd" => m_forms!($form, $x, $y, gcd),
+            "gcd_ext" => m_forms!($form, $x, $y, gcd_ext),
+            "divrem_assign" => {
+                let (mut v, y) = ($x, $y);
+                match $form {
+                    "av" => { let r = v.div_rem_assign(y); ok((v, r)) }
+                    "ar" => { let r = v.div_rem_assign(&y); ok((v, r)) }
+                    _ => "unknown-op".into(),
+                }
+            }
+            _ => "unknown-op".into(),
+        }
+    };
+}
+
+fn forms_u(op: &str, form: &str, a: &[&str]) -> String {
+    int_forms!(op, form, ubig(a[0]), ubig(a[1]))
+}
+
+fn forms_i(op: &str, form: &str, a: &[&str]) -> String {
+    match op {
+        // mixed UBig / IBig operands
+        "div_iu" => op_forms4!(form, ibig(a[0]), ubig(a[1]), /),
+        "rem_iu" => op_forms4!(form, ibig(a[0]), ubig(a[1]), %),
+        "div_ui" => op_forms4!(form, ubig(a[0]), ibig(a[1]), /),
+        "rem_ui" => op_forms4!(form, ubig(a[0]), ibig(a[1]), %),
+        "sub_ui" => op_forms4!(form, ubig(a[0]), ibig(a[1]), -),
+        _ => int_forms!(op, form, ibig(a[0]), ibig(a[1])),
+    }
+}
+
+fn forms_f<R: Round, const B: Word>(op: &str, form: &str, a: &[&str]) -> String {
+    let ctx = Context::<R>::new(usz(a[0]));
+    let x = FBig::<R, B>::from_repr(repr_of::<B>(a[1], a[2]), ctx);
+    let y = FBig::<R, B>::from_repr(repr_of::<B>(a[3], a[4]), ctx);
+    match op {
+        "op_add" => op_forms!(form, x, y, +, +=),
+        "op_sub" => op_forms!(form, x, y, -, -=),
+        "op_mul" => op_forms!(form, x, y, *, *=),
+        "op_div" => op_forms!(form, x, y, /, /=),
+        "op_rem" => op_forms!(form, x, y, %, %=),
+        _ => "unknown-op".into(),
+    }
+}
+
+fn forms_q(op: &str, form: &str, a: &[&str]) -> String {
+    let (x, y) = (rbig(a[0], a[1]), rbig(a[2], a[3]));
+    match op {
+        "add" => op_forms!(form, x, y, +, +=),
+        "sub" => op_forms!(form, x, y, -, -=),
+        "mul" => op_forms!(form, x, y, *, *=),
+        "div" => op_forms!(form, x, y, /, /=),
+        "rem" => op_forms!(form, x, y, %, %=),
+        _ => "unknown-op".into(),
+    }
+}
+
+fn forms_r(op: &str, form: &str, a: &[&str]) -> String {
+    let (x, y) = (relaxed(a[0], a[1]), relaxed(a[2], a[3]));
+    match op {
+        "add" => op_forms!(form, x, y, +, +=),
+        "sub" => op_forms!(form, x, y, -, -=),
+        "mul" => op_forms!(form, x, y, *, *=),
+        "div" => op_forms!(form, x, y, /, /=),
+        "rem" => op_forms!(form, x, y, %, %=),
+        _ => "unknown-op".into(),
+    }
+}
+
 // ------------------------------------------------------------------------------------------------
 // integers
 // ------------------------------------------------------------------------------------------------
@@ -461,6 +585,9 @@ fn modular(op: &str, a: &[&str]) -> String {
 // floats:  f.<op> <base> <mode> <prec> <sig> <exp> [<sig2> <exp2>] [<n>]
 // ------------------------------------------------------------------------------------------------
 fn fl<R: Round, const B: Word>(op: &str, a: &[&str]) -> String {
+    if let Some((base, form)) = op.split_once('@') {
+        return forms_f::<R, B>(base, form, a);
+    }
     let p = usz(a[0]);
     let ctx = Context::<R>::new(p);
     let xr = || repr_of::<B>(a[1], a[2]);
@@ -786,6 +913,17 @@ fn deser(op: &str, a: &[&str]) -> String {
 
 fn run(op: &str, a: &[&str]) -> String {
     let (fam, name) = op.split_once('.').unwrap_or(("", op));
+    if fam != "f" {
+        if let Some((base, form)) = name.split_once('@') {
+            return match fam {
+                "u" => forms_u(base, form, a),
+                "i" => forms_i(base, form, a),
+                "q" => forms_q(base, form, a),
+                "r" => forms_r(base, form, a),
+                _ => "unknown-op".into(),
+            };
+        }
+    }
     match fam {
         "u" => int_u(name, a),
         "i" => int_i(name, a),
